@@ -126,10 +126,14 @@ const (
 	FaultCancel
 	FaultConnLoss
 	FaultStall
+	// FaultCancelAfter: the statement at event k executes, THEN the client cancels and the
+	// transaction watcher of database/sql gets to roll back before the handler continues
+	// (the window "cancelled between the last statement and the commit")
+	FaultCancelAfter
 )
 
 func (k FaultKind) String() string {
-	return [...]string{"none", "sql_stmt_err", "commit_err", "ctx_cancel", "conn_loss", "stall"}[k]
+	return [...]string{"none", "sql_stmt_err", "commit_err", "ctx_cancel", "conn_loss", "stall", "ctx_cancel_after_stmt"}[k]
 }
 
 var errInjected = errors.New("simulated storage failure")
@@ -145,14 +149,15 @@ type Sim struct {
 	sleepin atomic.Int32
 
 	// fault plan: fires at the k-th driver event counted since arm (1-based)
-	evt        int
-	faultKind  FaultKind
-	faultAt    int
-	faultFired bool
-	stallFor   time.Duration
-	connLost   bool
-	cancelOp   context.CancelFunc
-	openTx     int // number of real transactions currently open
+	evt                int
+	cancelAfterPending bool
+	faultKind          FaultKind
+	faultAt            int
+	faultFired         bool
+	stallFor           time.Duration
+	connLost           bool
+	cancelOp           context.CancelFunc
+	openTx             int // number of real transactions currently open
 
 	goTask sync.Map // goid -> task id
 
@@ -600,8 +605,28 @@ func (c *yConn) pre(ctx context.Context) error {
 		}
 	case FaultStall:
 		time.Sleep(s.stallFor)
+	case FaultCancelAfter:
+		s.mu.Lock()
+		s.cancelAfterPending = true
+		s.mu.Unlock()
 	}
 	return nil
+}
+
+// AfterEntOp is called by the harness' ent interceptor / hook when an ent query or mutation
+// has returned to the caller (outside database/sql's statement lock): a pending "cancel after
+// this statement" is applied here: cancel, then let the rest of the bubble (the transaction's
+// context watcher, which rolls back) run before the handler continues.
+func (s *Sim) AfterEntOp() {
+	s.mu.Lock()
+	p := s.cancelAfterPending
+	s.cancelAfterPending = false
+	c := s.cancelOp
+	s.mu.Unlock()
+	if p && c != nil {
+		c()
+		time.Sleep(time.Microsecond)
+	}
 }
 
 func (c *yConn) ExecContext(ctx context.Context, q string, args []driver.NamedValue) (driver.Result, error) {
